@@ -46,6 +46,7 @@ type vfScriptServer struct {
 	files    map[string][]byte
 	dirs     map[string][]string // dir -> entry names
 	handles  map[string]*ssHandle
+	noSync     func(path string) bool // fsync requests naming a handle of such a file are answered "unsupported"
 	nextH    int
 	exts     [][2]string
 	version  uint32
@@ -376,6 +377,10 @@ func (s *vfScriptServer) model(q *wReq) *wResp {
 			}
 			return ssStatus(q.ID, wsOK, "")
 		case "fsync@openssh.com":
+			if h := s.handles[q.Handle]; h != nil && s.noSync != nil && s.noSync(h.path) {
+				// advertised, but not for this file (the answer is a function of the request: which handle it names)
+				return ssStatus(q.ID, wsUnsupported, "cannot sync this one")
+			}
 			return ssStatus(q.ID, wsOK, "")
 		}
 		return ssStatus(q.ID, wsUnsupported, "unsupported")
